@@ -122,13 +122,32 @@ class Func:
         return f"<Func {self.qualname}>"
 
 
+class _Methods(dict):
+    """Methods of a class by name.  A helper that used to be a (static) method of the class and now lives at module level under
+    the same name - or the other way round - is still the same anchor: a missing name is looked up among the functions of the
+    class's module."""
+    fallback = None
+
+    def __missing__(self, key):
+        f = self.fallback(key) if self.fallback is not None else None
+        if f is None:
+            raise KeyError(key)
+        return f
+
+    def get(self, key, default=None):
+        if key in self:
+            return dict.__getitem__(self, key)
+        f = self.fallback(key) if self.fallback is not None else None
+        return f if f is not None else default
+
+
 @dataclass
 class Class:
     name: str
     module: Module
     node: ast.ClassDef
     base_names: List[str]
-    methods: Dict[str, Func] = field(default_factory=dict)
+    methods: Dict[str, Func] = field(default_factory=_Methods)
     bases: List["Class"] = field(default_factory=list)
 
     @property
@@ -152,6 +171,10 @@ class Class:
         for c in self.mro():
             if name in c.methods:
                 return c.methods[name]
+        for c in self.mro():
+            f = c.methods.get(name)         # a helper of the same name that now lives at module level
+            if f is not None:
+                return f
         return None
 
     def __hash__(self):
@@ -255,6 +278,9 @@ class Program:
         # nested functions and lambdas
         for f in list(self.funcs.values()):
             self._index_nested(f)
+        for cls in self.classes.values():
+            if isinstance(cls.methods, _Methods):
+                cls.methods.fallback = (lambda name, m=cls.module: self.funcs.get(f"{m.name}.{name}") if not name.startswith("__") else None)
 
     def _index_module(self, mod: Module):
         for st in mod.tree.body:
@@ -402,6 +428,13 @@ class Program:
     def func(self, qualname: str) -> Func:
         f = self.funcs.get(qualname)
         if f is None:
+            # the same helper moved between a class and module level (staticmethod <-> function) keeps its name and module
+            parts = qualname.split(".")
+            if len(parts) in (2, 3) and not parts[-1].startswith("__"):
+                cands = [g for q, g in self.funcs.items() if q.split(".")[0] == parts[0] and q.split(".")[-1] == parts[-1]
+                         and "<locals>" not in q and g.kind != "lambda" and len(q.split(".")) in (2, 3)]
+                if len(cands) == 1:
+                    return cands[0]
             raise AnalysisError(f"anchor function {qualname} not found")
         return f
 
